@@ -334,6 +334,7 @@ def c17(rep, tier):
     p = P("all")
     r_table.run_directives(p, rep)
     r_table.run_fmt_numeric(p, rep)
+    r_table.run_sign(p, rep)
     r_table.run_date_formats(p, rep)
     r_table.run_date_cmp(p, rep)
     import r_strslice
